@@ -473,6 +473,10 @@ class RaiseMonitor:
         elif isinstance(exc, TypeError) and any(s in msg for s in ('positional argument', 'unexpected keyword argument',
                                                                     'required keyword', 'multiple values for argument')):
             kind = 'TypeError'
+        elif isinstance(exc, TypeError) and msg.endswith('object is not callable'):
+            # a name used in call position that resolves to something that cannot be called (a parameter or local shadowing
+            # the builtin / module function the code means); no C20 entry hands the package a non-callable
+            kind = 'TypeError'
         if kind:
             site = f"{fn.rsplit('/', 1)[-1][:-3]}.{code.co_name}"
             self.ctx.violation('raise-monitor', f'link:{site}:{kind}', f'{kind} raised in {site}: {msg}')
